@@ -48,6 +48,9 @@ func genReactorConc(r *Rng, i int, tier string) string {
 	p := 1 + r.Intn(3)
 	k := 1 + r.Intn(3)
 	seeds := 2 + r.Intn(5)
+	if r.Chance(60) { // more seeds than tokens: producers have to wait for finishes
+		seeds = capN + 1 + r.Intn(5)
+	}
 	if tier == "thorough" && r.Chance(30) {
 		seeds = 6 + r.Intn(20)
 		capN = 1 + r.Intn(8)
@@ -58,7 +61,7 @@ func genReactorConc(r *Rng, i int, tier string) string {
 	if r.Chance(35) {
 		freeze = 1 + r.Intn(seeds)
 	}
-	noise := r.Intn(3) // 0 none, 1 unknown feedback, 2 + repeated finish
+	noise := r.Intn(4) // 0 none, 1 unknown feedback, 2 + repeated finish, 3 + two goroutines finish the same seed at once
 	return fmt.Sprintf("cap=%d ocap=%d p=%d k=%d seeds=%d fb=%d freeze=%d noise=%d sched=%d",
 		capN, ocap, p, k, seeds, fb, freeze, noise, r.Intn(1<<30))
 }
@@ -184,7 +187,7 @@ func execReactorConc(in string) Result {
 	unknownID := atomic.Int64{}
 	unknownID.Store(1000)
 
-	threads := make([]*rcThread, P+K)
+	threads := make([]*rcThread, P+2*K) // producers, consumers, one helper per consumer (racing finish)
 	for i := range threads {
 		threads[i] = &rcThread{tid: i, rng: sched.Fork()}
 	}
@@ -206,7 +209,7 @@ func execReactorConc(in string) Result {
 	}
 	for k := 0; k < K; k++ {
 		cwg.Add(1)
-		go func(t *rcThread) {
+		go func(t, helper *rcThread) {
 			defer cwg.Done()
 			for {
 				var it *models.Item
@@ -232,7 +235,24 @@ func execReactorConc(in string) Result {
 					}
 					continue
 				}
-				r := t.call('F', it, id)
+				r := ""
+				if noise >= 3 && t.rng.Chance(40) {
+					// a badly behaved client: two goroutines mark the same seed finished at the same time;
+					// exactly one of them may succeed
+					hr := make(chan string, 1)
+					start := make(chan struct{})
+					go func() { <-start; hr <- helper.call('F', it, id) }()
+					close(start)
+					r = t.call('F', it, id)
+					if r2 := <-hr; r2 == "ROk" {
+						if r == "ROk" {
+							finished.Add(1) // both succeeded: counted, the monitors will object
+						}
+						r = "ROk"
+					}
+				} else {
+					r = t.call('F', it, id)
+				}
 				if r == "ROk" {
 					f := finished.Add(1)
 					if freezeAt > 0 && int(f) >= freezeAt {
@@ -245,7 +265,7 @@ func execReactorConc(in string) Result {
 					t.call('F', it, id)
 				}
 			}
-		}(threads[P+k])
+		}(threads[P+k], threads[P+K+k])
 	}
 	hung := false
 	pdone := make(chan struct{})
